@@ -12,6 +12,7 @@ package main
 
 import (
 	"encoding/hex"
+	"encoding/json"
 	"fmt"
 	"path/filepath"
 	"sort"
@@ -36,7 +37,9 @@ type tdesc struct {
 	Named     map[string][]string `json:"named,omitempty"`
 	Data      []string            `json:"data,omitempty"`
 	NamedData map[string][]string `json:"named_data,omitempty"`
-	Tools     []string            `json:"tools,omitempty"`      // file tools, label tools, or "/abs" system tools
+	// label tools or "/abs" system tools: the BUILD language never yields an in-repo file as a tool
+	// (parseSource turns a relative non-label tool into a lookup on PATH)
+	Tools     []string            `json:"tools,omitempty"`
 	TestTools []string            `json:"test_tools,omitempty"` // makes the target a test
 	Deps      []string            `json:"deps,omitempty"`
 	Req       []string            `json:"req,omitempty"`
@@ -371,7 +374,6 @@ func (b *built) coq(n *numbering) string {
 		ts = append(ts, lib.App("mkT",
 			lib.N(n.idOf(t.Label)), lib.Str(t.Label.PackageName), lib.Bool(t.Subrepo != nil), subT,
 			lib.StrList(td.srcData()),
-			lib.StrList(filterEntries(td.allTools(), func(e string) bool { return !isLabel(e) && !isAbs(e) })),
 			lib.NList(deps), lib.NList(req), lib.List(prov),
 			n.idList(filterEntries(td.allData(), isLabel)), n.idList(filterEntries(td.allTools(), isLabel)),
 			lib.Bool(inc),
@@ -494,9 +496,9 @@ func newReference(d *gdesc) *reference {
 	return r
 }
 
-// does host target t consume file f (as a source / data entry, or - tools=true - as a file tool)?
+// does host target t consume file f (as a source / data entry)?
 // The package must own the file (closest enclosing package), which plz enforces for sources and data.
-func (r *reference) consumesFile(t *tdesc, f string, tools bool) bool {
+func (r *reference) consumesFile(t *tdesc, f string) bool {
 	sub, pkg, _ := splitLabel(t.Label)
 	if sub != "" {
 		return false
@@ -504,11 +506,7 @@ func (r *reference) consumesFile(t *tdesc, f string, tools bool) bool {
 	if own, ok := closestPkg(r.d, f); !ok || own != pkg {
 		return false
 	}
-	es := t.srcData()
-	if tools {
-		es = t.allTools()
-	}
-	for _, e := range es {
+	for _, e := range t.srcData() {
 		if !isLabel(e) && !isAbs(e) && under(joinPkg(pkg, e), f) {
 			return true
 		}
@@ -561,7 +559,11 @@ type caseJS struct {
 	Reported []string `json:"reported"`
 }
 
-func tdescEqual(a, b *tdesc) bool { return fmt.Sprintf("%#v", *a) == fmt.Sprintf("%#v", *b) }
+func tdescEqual(a, b *tdesc) bool {
+	x, _ := json.Marshal(a)
+	y, _ := json.Marshal(b)
+	return string(x) == string(y)
+}
 
 func runQuery(c *lib.Ctx, d *gdesc, q qdesc, withCase bool, tag string) {
 	after := buildGraph(1, d)
@@ -595,17 +597,14 @@ func runQuery(c *lib.Ctx, d *gdesc, q qdesc, withCase bool, tag string) {
 
 	// ---- the reference
 	ref := newReference(d)
-	base, baseTools := []string{}, []string{}
+	base := []string{}
 	defChanged := 0
 	for i := range d.Targets {
 		t := &d.Targets[i]
-		direct, viaTool := false, false
+		direct := false
 		for _, f := range q.Files {
-			if ref.consumesFile(t, f, false) {
+			if ref.consumesFile(t, f) {
 				direct = true
-			}
-			if ref.consumesFile(t, f, true) {
-				viaTool = true
 			}
 		}
 		if q.Before != nil {
@@ -623,20 +622,21 @@ func runQuery(c *lib.Ctx, d *gdesc, q qdesc, withCase bool, tag string) {
 		if direct {
 			base = append(base, t.Label)
 		}
-		if direct || viaTool {
-			baseTools = append(baseTools, t.Label)
-		}
 	}
-	// tiers of required targets: (1) what the property demands with the dependency edges plz builds with,
-	// (2) + file tools as consumed files, (3) + subrepo -> defining target edges, (4) + subinclude edges
-	tiers := []struct {
+	// tiers of required targets: (1) what the property demands over the dependency edges plz builds with (and the
+	// subrepo -> defining target edge when subrepos are included), (2) + that edge also without include_subrepos
+	// (a host target can depend on a subrepo target), (3) + subinclude edges: only without a `before` graph, because
+	// with one a target of a subincluding package is affected exactly when its own definition changed
+	type tier struct {
 		class string
 		dist  map[string]int
-	}{
+	}
+	tiers := []tier{
 		{"affected-target-not-reported", ref.closure(base, q.IncSub, false)},
-		{"file-tool-not-a-consumed-file", ref.closure(baseTools, q.IncSub, false)},
-		{"subrepo-edge-needs-include-subrepos", ref.closure(baseTools, true, false)},
-		{"subincluding-package-not-followed", ref.closure(baseTools, true, true)},
+		{"subrepo-edge-needs-include-subrepos", ref.closure(base, true, false)},
+	}
+	if q.Before == nil {
+		tiers = append(tiers, tier{"subincluding-package-not-followed", ref.closure(base, true, true)})
 	}
 	c.Oracle()
 	missing := map[string]string{}
@@ -796,14 +796,8 @@ func generate(r *lib.Rng) *gdesc {
 			if r.Chance(1, 6) {
 				t.NamedData = map[string][]string{"cfg": {genEntry(r, d.Pkgs, pkg, valid)}}
 			}
-			if r.Chance(1, 5) {
-				t.Tools = append(t.Tools, genEntry(r, d.Pkgs, pkg, true))
-			}
 			if r.Chance(1, 8) {
 				t.Tools = append(t.Tools, lib.Pick(r, []string{"/usr/bin/python3", "/bin/sh"}))
-			}
-			if r.Chance(1, 8) {
-				t.TestTools = append(t.TestTools, genEntry(r, d.Pkgs, pkg, true))
 			}
 		}
 		// dependencies on earlier targets (acyclic), in the various roles
@@ -818,6 +812,8 @@ func generate(r *lib.Rng) *gdesc {
 				t.Data = appendNew(t.Data, prev)
 			case 2:
 				t.Tools = appendNew(t.Tools, prev)
+			case 3:
+				t.TestTools = appendNew(t.TestTools, prev)
 			default:
 				t.Deps = appendNew(t.Deps, prev)
 			}
@@ -889,7 +885,7 @@ func genFiles(r *lib.Rng, d *gdesc) []string {
 		if sub != "" {
 			continue
 		}
-		for _, e := range append(t.srcData(), t.allTools()...) {
+		for _, e := range t.srcData() {
 			if isLabel(e) || isAbs(e) {
 				continue
 			}
@@ -958,7 +954,7 @@ func genBefore(r *lib.Rng, after *gdesc) *gdesc {
 				t.Cmd = "older"
 			}
 		case 7: // a target that exists only before
-			b.Targets = append(b.Targets, tdesc{Label: "//" + lib.Pick(r, b.Pkgs) + ":gone", Cmd: "gone"})
+			b.Targets = append(b.Targets, tdesc{Label: fmt.Sprintf("//%s:gone%d", lib.Pick(r, b.Pkgs), k), Cmd: "gone"})
 		}
 	}
 	return b
@@ -991,8 +987,8 @@ func fixedCases() []caseJS {
 	bin := tdesc{Label: "//a/b:bin", Srcs: []string{"main.go"}, Deps: []string{"//a:lib"}, Cmd: "c"}
 	tst := tdesc{Label: "//a/b:test", Srcs: []string{"t.go"}, Data: []string{"testdata"}, Deps: []string{"//a/b:bin"}, Cmd: "c"}
 	base := gdesc{Targets: []tdesc{lib1, bin, tst}, Pkgs: []string{"a", "a/b"}}
-	tool := gdesc{Targets: []tdesc{{Label: "//a:gen", Srcs: []string{"in.txt"}, Tools: []string{"gen.sh"}, Cmd: "c"},
-		{Label: "//a:user", Deps: []string{"//a:gen"}, Cmd: "c"}}, Pkgs: []string{"a"}}
+	tool := gdesc{Targets: []tdesc{{Label: "//a:gen", Srcs: []string{"gen.sh"}, Cmd: "c"},
+		{Label: "//a:user", Tools: []string{"//a:gen", "/bin/sh"}, Cmd: "c"}}, Pkgs: []string{"a"}}
 	incl := gdesc{Targets: []tdesc{{Label: "//defs:defs", Srcs: []string{"rules.build_defs"}, Cmd: "c"},
 		{Label: "//a:lib", Srcs: []string{"lib.go"}, Cmd: "c"}}, Pkgs: []string{"a", "defs"},
 		Subincludes: map[string][]string{"a": {"//defs:defs"}}}
